@@ -123,9 +123,14 @@ def names(ref=None, family=None, pred=None):
     return out
 
 
+# 64 local functions of degree 6 with third derivatives: seconds per case.  Random generation leaves it out unless asked
+# (thorough tiers ask); the enumerated sweeps of C09 and a committed C03 replay cover it in every tier.
+COSTLY = {'ElementHexC1'}
+
+
 @st.composite
-def simple(draw, ref, family=None, pred=None, exclude=()):
-    cand = [n for n in names(ref, family, pred) if n not in exclude]
+def simple(draw, ref, family=None, pred=None, exclude=(), costly=False):
+    cand = [n for n in names(ref, family, pred) if n not in exclude and (costly or n not in COSTLY)]
     n = draw(st.sampled_from(cand))
     d = {'cls': n}
     if n in PP_RANGE:
@@ -135,10 +140,10 @@ def simple(draw, ref, family=None, pred=None, exclude=()):
 
 
 @st.composite
-def wrapped(draw, ref, family=None, pred=None, exclude=(), vector=True, dg=True, composite=True, maxcomp=3):
+def wrapped(draw, ref, family=None, pred=None, exclude=(), vector=True, dg=True, composite=True, maxcomp=3, costly=False):
     """element descriptor, possibly wrapped in ElementVector / ElementDG / ElementComposite"""
     k = draw(st.integers(0, 9))
-    base = draw(simple(ref, family, pred, exclude))
+    base = draw(simple(ref, family, pred, exclude, costly=costly))
     scalar = R[base['cls']]['scalar']
     glob = R[base['cls']]['family'].startswith('global')
     if k <= 4 or glob:
